@@ -191,7 +191,6 @@ def check(run):
     run.translate(['Errors'])
     run.build_and_audit('MaltModel.Props.C12', model_files=MODEL_FILES)
 
-    # ---------------- cases ----------------
     corpus = load_corpus()
     cases = []
     for c in corpus:
@@ -203,6 +202,16 @@ def check(run):
     for _ in range(n_random):
         cases.append({'spec': c12_gen.random_spec(run.rng), 'tag': 'k%d' % len(cases)})
     corr_every = 1 if quick else 3        # correspondence requests for every case (quick) / every third (thorough)
+    process(run, cases, corr_every, full=True)
+    run.cov.update({'corpus_cases': len(corpus), 'sweep_cases': len(sweep), 'random_cases': n_random,
+        'search': 'direct oracle on %d cases (corpus %d + single-dimension sweep %d + random %d): original traceback vs translated stack, '
+                  'type rule, message, every source-map entry' % (len(cases), len(corpus), len(sweep), n_random)})
+
+
+def process(run, cases, corr_every=1, full=True):
+    """Run the cases on the real code, aggregate the direct oracle, run the correspondence and the
+    verified checker through the driver, classify the failing inputs."""
+    import c12_real
     jobs = [(i, c, (i % corr_every == 0) or ('corpus' in c)) for i, c in enumerate(cases)]
 
     nproc = min(12, os.cpu_count() or 2)
@@ -327,7 +336,7 @@ def check(run):
             i, (op, req, exp) = corr_lines[len(corr_lines) // 2]
             run.sample({'request': req[:400], 'implementation': exp[:300], 'model': answers[len(corr_lines) // 2][:300]})
         # exhaustive table of create_exception over a class zoo
-        zoo = exception_zoo()
+        zoo = exception_zoo() if full else []
         from malt.impl import api
         lines, exp, names = [], [], []
         for T in zoo:
@@ -342,7 +351,7 @@ def check(run):
                 kind = 'raises:' + type(ex).__name__
             f = c12_real.type_facts(T)
             lines.append('c12.create ' + sexp(list(f))); exp.append(kind); names.append(T.__name__)
-        got = run.drive(lines)
+        got = run.drive(lines) if lines else []
         bad, notwf = [], []
         for n, l, e, g in zip(names, lines, exp, got):
             run.evaluations += 1
@@ -385,7 +394,7 @@ def check(run):
     # every listed known finding must still be witnessed by its corpus case (else the listing is stale)
     listed = [k for k in common.load_known_findings() if k.get('property') == 'C12' and k.get('status', 'open') == 'open']
     hit = set(f.get('cls') for f in run.failing)
-    for k in listed:
+    for k in (listed if full else []):
         run.oblige('known-finding-still-reproduces:' + k['id'], 'finding', k['class'] in hit,
                    'no failing case of class %s was observed (is the defect fixed? then update the model and drop the finding)' % k['class'])
 
@@ -395,27 +404,23 @@ def check(run):
         'generated_lines_with_several_origin_lines': stats['multi_origin_lines'],
         'original_statement_lines': stats['orig_stmt_lines'], 'original_statement_lines_unmapped': stats['orig_stmt_lines_unmapped'],
         'dimension_coverage': {k: dict(sorted(v.items())) for k, v in dims.items()},
-        'oracle_failures_by_kind': oracle_fail, 'corpus_cases': len(corpus), 'sweep_cases': len(sweep), 'random_cases': n_random,
-        'exhaustive': False,
-        'search': 'direct oracle on %d cases (corpus %d + single-dimension sweep %d + random %d): original traceback vs translated stack, '
-                  'type rule, message, every source-map entry' % (len(cases), len(corpus), len(sweep), n_random),
+        'oracle_failures_by_kind': oracle_fail, 'exhaustive': False,
     })
+    return results
 
 
 def replay(run, path):
-    """Re-run one recorded case (replay file or corpus file) and print what the oracle says."""
-    import c12_real
+    """Re-run model and implementation on one recorded case (a replay file or a corpus file)."""
     with open(path) as f:
         rep = json.load(f)
     case = rep.get('case', rep)
-    sys.path.insert(0, common.REPO)
-    _worker_init(common.REPO)
-    try:
-        _, res = _worker_run((0, dict(case, tag='replay'), True))
-    finally:
-        _pool_finalize()
-    print(json.dumps({'status': res['status'], 'fails': res['fails'], 'stats': res['stats'], 'error': res.get('error')}, indent=1, default=str))
-    for f in res['fails']:
-        run.fail(f['what'], case, f['cls'] if f['cls'] and not str(f['cls']).startswith('PENDING') else None)
-    run.case('replay', True)
+    case = {k: v for k, v in case.items() if k in ('src', 'entry', 'args', 'fn_conv', 'spec') and v is not None}
+    if 'src' not in case:
+        case = {'spec': case['spec']}
+    run.translate(['Errors'])
+    run.build_and_audit('MaltModel.Props.C12', model_files=MODEL_FILES)
+    results = process(run, [dict(case, tag='replay')], 1, full=False)
+    res = results[0]
+    print(json.dumps({'status': res['status'], 'oracle': res['fails'], 'stats': res['stats'],
+                      'source': res.get('src', '').split('class Obj')[-1][-1500:]}, indent=1, default=str))
     return run.finish()
